@@ -1705,6 +1705,18 @@ def sec_sweepable(ctx, rng, case):
             sws = cirq.to_sweeps(d)
         ctx.check(_same_points(rs, wp) and len(sws) == len(wp) and all(len(x) == 1 for x in sws), "sweepable", "C10:sweepable:dict-expansion",
                   lambda: "to_resolvers(%r) = %r, the Cartesian product is %r" % (d, rs[:5], wp[:5]))
+        # a list of assignments (each a dict, written in its own key order) as one Zip: point i is the i-th dict
+        nkeys = int(rng.integers(1, 4))
+        names_ = ["s%d" % i for i in range(nkeys)]
+        rows = []
+        for _ in range(int(rng.integers(1, 5))):
+            order_ = [names_[int(i)] for i in rng.permutation(nkeys)]
+            rows.append({k_: float(_vals(rng, 1)[0]) for k_ in order_})
+        lz = cirq.list_of_dicts_to_zip(rows)
+        want_rows = [tuple(sorted(r.items())) for r in rows]
+        got_rows = [tuple(sorted((str(k_), float(v_)) for k_, v_ in r.param_dict.items())) for r in cirq.to_resolvers(lz)]
+        ctx.check(isinstance(lz, cirq.Zip) and got_rows == want_rows, "sweepable", "C10:sweepable:list_of_dicts_to_zip",
+                  lambda: "list_of_dicts_to_zip(%r) enumerates %r" % (rows, got_rows), rows=repr(rows))
         ctx.distinct(("sweepable", "dict", tuple(wp[:3]), len(wp)), nontrivial=len(wp) >= 2)
     elif kind == 4:
         # nested iterables of everything sweepable: concatenation in order
